@@ -25,6 +25,7 @@ def parseLoc (j : Json) : Except String Loc := do
   match (← getStr j "t") with
   | "line" => pure (.line (← getStr j "path") (← getInt j "line"))
   | "func" => pure (.func (← getStr j "path") (← getStr j "name"))
+  | "nosource" => pure (.nosource (← getStr j "path"))
   | t => throw s!"unknown location type {t}"
 
 def parseTp (j : Json) : Except String Tp := do
